@@ -59,6 +59,23 @@ def spine_scripts(kinds):
             out.append(f"sub id={i}")
             return i
         main = [0]
+        if kind == "outage":
+            # a storage outage across the automatic clean at height 10000: the clean fails (its error is only
+            # logged), every accepted header must still be announced, and the repository goes on afterwards
+            upto = 10000 - rnd.randint(2, 6)
+            for _ in range(upto):
+                main.append(hdr(main[-1]))
+            out.append("storefail on=1")
+            for _ in range(rnd.randint(4, 9)):
+                main.append(hdr(main[-1]))
+            out.append("storefail on=0")
+            for _ in range(3):
+                main.append(hdr(main[-1]))
+            side = [main[-3]]
+            for _ in range(4):
+                side.append(hdr(side[-1], 453050367))
+            out.append("dump step=97")
+            return out
         if kind == "autoclean":
             upto = 10000 - rnd.randint(3, 12)
             for _ in range(upto):
